@@ -340,4 +340,91 @@ theorem unknown_const_keyword (name : String) (hn : IsConstantName name) (rest :
         rw [heq]; exact lit_none_of_upper "@" '@' _ rfl (by decide) a _ hup
       simp only [parseStructLine, if_true, e1, e2, e3, bind, Option.bind]
 
+/-! ### more sites of the name and width operators -/
+
+/-- Operator `bad-width` on the type of a member: `name = uint24…` / `name = int24…`. -/
+theorem bad_width_member (name : String) (hn : IsMemberName name) (rest : Chars) :
+    LineRejected (name.toList ++ ' ' :: '=' :: ' ' :: 'u' :: 'i' :: 'n' :: 't' :: '2' :: '4' :: rest) ∧
+    LineRejected (name.toList ++ ' ' :: '=' :: ' ' :: 'i' :: 'n' :: 't' :: '2' :: '4' :: rest) := by
+  have f1 : fixedSizeInteger ('u' :: 'i' :: 'n' :: 't' :: '2' :: '4' :: rest) = none := by
+    simp [fixedSizeInteger, skipWs, isWs, litHere, List.isPrefixOf]
+  have f2 : fixedSizeInteger ('i' :: 'n' :: 't' :: '2' :: '4' :: rest) = none := by
+    simp [fixedSizeInteger, skipWs, isWs, litHere, List.isPrefixOf]
+  have u1 : ∀ r, userTypeName ('u' :: r) = none := fun r => userTypeName_none_of_head 'u' r (by decide) (by decide)
+  have u2 : ∀ r, userTypeName ('i' :: r) = none := fun r => userTypeName_none_of_head 'i' r (by decide) (by decide)
+  have a1 : ∀ r, lit "array" ('u' :: r) = none := fun r => lit_none_of_head "array" 'a' _ rfl 'u' r (by decide) (by decide)
+  have a2 : ∀ r, lit "array" ('i' :: r) = none := fun r => lit_none_of_head "array" 'a' _ rfl 'i' r (by decide) (by decide)
+  have p1 : plainFieldRest name (' ' :: 'u' :: 'i' :: 'n' :: 't' :: '2' :: '4' :: rest) = none := by
+    simp only [plainFieldRest, plainFieldType, fixedSizeInteger_skip_blank, f1, userTypeName_skip_blank, u1, lit_skip_blank, a1,
+      bind, Option.bind]
+  have p2 : plainFieldRest name (' ' :: 'i' :: 'n' :: 't' :: '2' :: '4' :: rest) = none := by
+    simp only [plainFieldRest, plainFieldType, fixedSizeInteger_skip_blank, f2, userTypeName_skip_blank, u2, lit_skip_blank, a2,
+      bind, Option.bind]
+  constructor
+  · apply member_line_rejected name hn _ _ p1
+    have e1 : ∀ r, lit "make_reserved" ('u' :: r) = none := fun r => lit_none_of_head "make_reserved" 'm' _ rfl 'u' r (by decide) (by decide)
+    have e2 : ∀ r, lit "sizeof" ('u' :: r) = none := fun r => lit_none_of_head "sizeof" 's' _ rfl 'u' r (by decide) (by decide)
+    have e3 : ∀ r, lit "inline" ('u' :: r) = none := fun r => lit_none_of_head "inline" 'i' _ rfl 'u' r (by decide) (by decide)
+    simp only [memberAfterEquals, lit_skip_blank, e1, e2, e3, p1, Option.map]
+  · apply member_line_rejected name hn _ _ p2
+    have e1 : ∀ r, lit "make_reserved" ('i' :: r) = none := fun r => lit_none_of_head "make_reserved" 'm' _ rfl 'i' r (by decide) (by decide)
+    have e2 : ∀ r, lit "sizeof" ('i' :: r) = none := fun r => lit_none_of_head "sizeof" 's' _ rfl 'i' r (by decide) (by decide)
+    simp only [memberAfterEquals, lit_skip_blank, e1, e2, lit_inline_int, p2, Option.map]
+
+/-- Operators `one-char-name` and `wrong-case` on the name of a member or of an enum value: a line that starts
+    with a single letter followed by a blank, or with an upper-case letter followed by a lower-case letter, and
+    then `=`, is accepted nowhere. -/
+theorem one_char_member_name (c : Char) (hc : isLower c = true ∨ isUpper c = true) (rest : Chars) :
+    LineRejected (c :: ' ' :: '=' :: rest) := by
+  have hws : isWs c = false := by rcases hc with h | h; exact not_ws_of_lower h; exact not_ws_of_upper h
+  have hprop : propertyName (c :: ' ' :: '=' :: rest) = none := by
+    unfold propertyName
+    rw [skipWs_cons_of_not_ws c _ hws]
+    simp [List.takeWhile, isLower, isDigit]
+  have hconst : constName (c :: ' ' :: '=' :: rest) = none := by
+    unfold constName
+    rw [skipWs_cons_of_not_ws c _ hws]
+    simp [List.takeWhile, isUpper, isDigit]
+  have hval : lit "__value__" (c :: ' ' :: '=' :: rest) = none := by
+    apply lit_none_of_head "__value__" '_' _ rfl c _ hws
+    simp only [beq_eq_false_iff_ne, ne_eq]; intro h; subst h
+    rcases hc with h | h <;> exact absurd h (by decide)
+  have hat : lit "@" (c :: ' ' :: '=' :: rest) = none := by
+    apply lit_none_of_head "@" '@' [] rfl c _ hws
+    simp only [beq_eq_false_iff_ne, ne_eq]; intro h; subst h
+    rcases hc with h | h <;> exact absurd h (by decide)
+  refine ⟨fun m => ?_, ?_, fun b => ?_⟩
+  · rcases hc with h | h
+    · have := parseTopLine_assignment_none m c [] rest h (by simp [isPropChar, h])
+      simpa using this
+    · exact parseTopLine_none_of_head m c _ hws (beq_false_of_upper _ (by decide) c h) (beq_false_of_upper _ (by decide) c h)
+        (beq_false_of_upper _ (by decide) c h) (beq_false_of_upper _ (by decide) c h) (beq_false_of_upper _ (by decide) c h)
+        (beq_false_of_upper _ (by decide) c h)
+  · simp only [parseEnumLine, hconst, bind, Option.bind]
+  · cases b <;> simp only [parseStructLine, hconst, hprop, hval, hat, bind, Option.bind, Bool.false_eq_true, ↓reduceIte]
+
+theorem wrong_case_member_name (a b : Char) (ha : isUpper a = true) (hb : isLower b = true) (rest : Chars) :
+    LineRejected (a :: b :: rest) := by
+  have hws := not_ws_of_upper ha
+  have hprop : propertyName (a :: b :: rest) = none := propertyName_none_of_head a _ hws (not_lower_of_upper ha)
+  have hconst : constName (a :: b :: rest) = none := by
+    unfold constName
+    rw [skipWs_cons_of_not_ws a _ hws]
+    have hbc : isUpper b = false := not_upper_of_lower hb
+    have hbd : isDigit b = false := by
+      cases hd : isDigit b with
+      | false => rfl
+      | true => rw [not_lower_of_digit hd] at hb; cases hb
+    have hbu : (b == '_') = false := by
+      simp only [beq_eq_false_iff_ne, ne_eq]; intro h; subst h; exact absurd hb (by decide)
+    simp [List.takeWhile, hbc, hbd, hbu]
+  have hval : lit "__value__" (a :: b :: rest) = none := lit_none_of_upper "__value__" '_' _ rfl (by decide) a _ ha
+  have hat : lit "@" (a :: b :: rest) = none := lit_none_of_upper "@" '@' _ rfl (by decide) a _ ha
+  refine ⟨fun m => ?_, ?_, fun bb => ?_⟩
+  · exact parseTopLine_none_of_head m a _ hws (beq_false_of_upper _ (by decide) a ha) (beq_false_of_upper _ (by decide) a ha)
+      (beq_false_of_upper _ (by decide) a ha) (beq_false_of_upper _ (by decide) a ha) (beq_false_of_upper _ (by decide) a ha)
+      (beq_false_of_upper _ (by decide) a ha)
+  · simp only [parseEnumLine, hconst, bind, Option.bind]
+  · cases bb <;> simp only [parseStructLine, hconst, hprop, hval, hat, bind, Option.bind, Bool.false_eq_true, ↓reduceIte]
+
 end SymbolVerif.Cats.Parser
